@@ -32,6 +32,8 @@ PROFILES = {
                       internal_row=0.15, puml_guards=True, row_budget=16),
     'frontlang2': dict(depth=(1, 1), regions=(1, 3), states_per_region=(2, 3), guard_composite=0.7, guard_none=0.15, action_max=3,
                        state_internal=0.5, sm_internal=0.0, completion=0.3, flags=0.5, internal_row=0.15, row_budget=16),
+    'copy': dict(depth=(1, 3), regions=(1, 2), completion=0.3, history=0.6, pseudo=0.5, row_budget=11, state_internal=0.2, sm_internal=0.0,
+                 deferral=0.4, scripts=True),
     'flags': dict(flags=1.0, depth=(1, 3), state_internal=0.0, sm_internal=0.0, scripts=True),
     'policy_after_entry': dict(policy='after_entry', flags=0.7, depth=(1, 3), pseudo=0.3, row_budget=12, state_internal=0.2, sm_internal=0.0, scripts=True),
     'policy_after_action': dict(policy='after_action', flags=0.7, depth=(1, 3), pseudo=0.3, row_budget=12, state_internal=0.2, sm_internal=0.0, scripts=True),
